@@ -390,7 +390,48 @@ structure ScanSt where
   r : Reader.Reader
   seenOpt : Bool := false
 
-/-- the TSIG branch; `some true` = verified (continue), `some false` = stop -/
+/-- the TSIG branch once the record has passed the syntactic checks (`ReadTsigRr::try_from`
+    succeeded): algorithm and key lookup, verification, the response's TSIG RR.
+    `some r'` = verified (the scan continues at `r'`), `none` = processing stops. -/
+def processTsig (cfg : Cfg) (now : Nat) (tsigRr : Tsig.ReadTsigRr) (messageWithoutTsig : Bytes)
+    (r' : Reader.Reader) : M (Option Reader.Reader) := fun s =>
+  match Tsig.TimeSigned.tryFromUnix now with
+  | none => (.panic, s)
+  | some nowT =>
+    let badKey : M (Option Reader.Reader) := do
+      setRcode (RC "NOTAUTH")
+      match WName.parse tsigRr.algorithm, preparedFromRead tsigRr nowT (XRC "BADKEY") with
+      | some (an, []), some prep => do
+        let _ ← setTsigOrTruncate (.unsigned an) prep
+        pure none
+      | _, _ => M.panic
+    match Tsig.Algorithm.fromName tsigRr.algorithm with
+    | none => badKey s
+    | some alg =>
+      match cfg.keys.find? (fun k => k.name == tsigRr.keyName && k.alg == alg) with
+      | none => badKey s
+      | some key =>
+        let res := Tsig.verifyRequest Tsig.realHmac tsigRr messageWithoutTsig.toList alg key.secret nowT
+        let (rcode, tsigErr, mode) : Nat × Nat × Option TsigMode := match res with
+          | .ok () => (RC "NOERROR", XRC "NOERROR",
+              some (.response (toWriterAlg alg) (Tsig.ReadTsigRr.mac tsigRr) key.secret))
+          | .err .BadSig => (RC "NOTAUTH", XRC "BADVERSBADSIG",
+              (WName.parse alg.name).map (fun x => .unsigned x.1))
+          | .err .BadTime => (RC "NOTAUTH", XRC "BADTIME",
+              some (.response (toWriterAlg alg) (Tsig.ReadTsigRr.mac tsigRr) key.secret))
+          | .err .FormErr => (RC "FORMERR", XRC "BADVERSBADSIG",
+              (WName.parse alg.name).map (fun x => .unsigned x.1))
+          | .panic => (0, 0, none)
+        match mode, preparedFromRead tsigRr nowT tsigErr with
+        | some m, some prep =>
+          (do
+            setRcode rcode
+            let added ← setTsigOrTruncate m prep
+            if added && rcode = RC "NOERROR" then pure (some r') else pure none) s
+        | _, _ => (.panic, s)
+
+/-- the TSIG branch: the syntactic checks (parse, raw TTL, class/TTL/RDATA layout in
+    `ReadTsigRr::try_from`), then `processTsig`; `some r'` = verified (continue), `none` = stop -/
 def handleTsig (cfg : Cfg) (now : Nat) (p : Reader.PeekRr) (rawTtl : Nat) : M (Option Reader.Reader) := fun s =>
   match p.messageToRr with
   | .ok messageWithoutTsig =>
@@ -402,41 +443,7 @@ def handleTsig (cfg : Cfg) (now : Nat) (p : Reader.PeekRr) (rawTtl : Nat) : M (O
         | .err .FormErr => (do setRcode (RC "FORMERR"); pure none) s
         | .err .NotTsig => (.panic, s)
         | .panic => (.panic, s)
-        | .ok tsigRr =>
-          match Tsig.TimeSigned.tryFromUnix now with
-          | none => (.panic, s)
-          | some nowT =>
-            let badKey : M (Option Reader.Reader) := do
-              setRcode (RC "NOTAUTH")
-              match WName.parse tsigRr.algorithm, preparedFromRead tsigRr nowT (XRC "BADKEY") with
-              | some (an, []), some prep => do
-                let _ ← setTsigOrTruncate (.unsigned an) prep
-                pure none
-              | _, _ => M.panic
-            match Tsig.Algorithm.fromName tsigRr.algorithm with
-            | none => badKey s
-            | some alg =>
-              match cfg.keys.find? (fun k => k.name == tsigRr.keyName && k.alg == alg) with
-              | none => badKey s
-              | some key =>
-                let res := Tsig.verifyRequest Tsig.realHmac tsigRr messageWithoutTsig.toList alg key.secret nowT
-                let (rcode, tsigErr, mode) : Nat × Nat × Option TsigMode := match res with
-                  | .ok () => (RC "NOERROR", XRC "NOERROR",
-                      some (.response (toWriterAlg alg) (Tsig.ReadTsigRr.mac tsigRr) key.secret))
-                  | .err .BadSig => (RC "NOTAUTH", XRC "BADVERSBADSIG",
-                      (WName.parse alg.name).map (fun x => .unsigned x.1))
-                  | .err .BadTime => (RC "NOTAUTH", XRC "BADTIME",
-                      some (.response (toWriterAlg alg) (Tsig.ReadTsigRr.mac tsigRr) key.secret))
-                  | .err .FormErr => (RC "FORMERR", XRC "BADVERSBADSIG",
-                      (WName.parse alg.name).map (fun x => .unsigned x.1))
-                  | .panic => (0, 0, none)
-                match mode, preparedFromRead tsigRr nowT tsigErr with
-                | some m, some prep =>
-                  (do
-                    setRcode rcode
-                    let added ← setTsigOrTruncate m prep
-                    if added && rcode = RC "NOERROR" then pure (some r') else pure none) s
-                | _, _ => (.panic, s)
+        | .ok tsigRr => processTsig cfg now tsigRr messageWithoutTsig r' s
     | (.err _, _) => (do setRcode (RC "FORMERR"); pure none) s
     | (.panic, _) => (.panic, s)
   | _ => (.panic, s)
